@@ -24,7 +24,7 @@ inductive W where
   | setProp (id key : Nat) (v : String)
   | addLabel (id l : Nat)
   | remLabel (id l : Nat)
-  | delNode (id : Nat)                 -- DETACH DELETE: the node and every incident edge
+  | delNode (id : Nat) (es : List Nat)  -- DETACH DELETE: the node and the incident edges the deleter saw
   | delEdge (id : Nat)
 
 def SGraph.apply (g : SGraph) : W → SGraph
@@ -39,15 +39,15 @@ def SGraph.apply (g : SGraph) : W → SGraph
   | .remLabel id l => match aget g.nodes id with
     | some (ls, ps) => { g with nodes := aset g.nodes id (serase ls l, ps) }
     | none => g
-  | .delNode id => { nodes := aerase g.nodes id,
-                     edges := g.edges.filter (fun kv => kv.2.src != id && kv.2.dst != id) }
+  | .delNode id es => { nodes := aerase g.nodes id,
+                        edges := g.edges.filter (fun kv => !es.contains kv.1) }
   | .delEdge id => { g with edges := aerase g.edges id }
 
 /-- the entities a write modifies (not the ones it creates): node `2·id`, edge `2·id+1` -/
 def W.modifies (g : SGraph) : W → List Nat
   | .node _ _ | .edge _ _ => []
   | .setProp id _ _ | .addLabel id _ | .remLabel id _ => [2 * id]
-  | .delNode id => 2 * id :: (g.edges.filter (fun kv => kv.2.src == id || kv.2.dst == id)).map (fun kv => 2 * kv.1 + 1)
+  | .delNode id es => 2 * id :: es.map (fun e => 2 * e + 1)
   | .delEdge id => [2 * id + 1]
 
 structure STx where
